@@ -860,13 +860,13 @@ theorem full15_of {S : Schema} (h : supportedC15 S = true) : Full15 S := by
     unfold typeOK at this
     have hc : Gen.Remote.skipTypeNames.contains td.name = false := hs
     simp only [hc, Bool.false_eq_true, if_false, Bool.and_eq_true] at this
-    exact userOK_of hc this.2
+    exact userOK_of hc this.2.2
   · intro d hm hs
     have := hdok d hm
     unfold directiveOK at this
     have hc : Gen.Remote.skipDirectiveNames.contains d.name = false := hs
     simp only [hc, Bool.false_or, Bool.and_eq_true, bne_iff_ne, ne_eq, Bool.not_eq_true', List.all_eq_true] at this
-    exact ⟨this.1.1, this.1.2, this.2⟩
+    exact ⟨this.2.1.1, this.2.1.2, this.2.2⟩
   · obtain ⟨q, hq⟩ := hq
     exact ⟨q, hq, by simpa [hq, rootOK] using hqok⟩
   · intro m hm
